@@ -898,9 +898,59 @@ def run_c09(ctx):
     shared_predicate_stream(ctx, cases, "c09")
     long_array_stream(ctx, "c09", ["int64", "int32", "uint8", "str"], 40 if q else 1500)
     mesh_integer_stream(ctx, 150 if q else 4000)
-    ctx.rule = ("integer (8 dtypes, extremes), string and int/float-mixed arrays, shapes as C01, a differing entry at "
+    object_array_stream(ctx, 200 if q else 5000)
+    ctx.rule = ("integer (8 dtypes, extremes), string and int/float-mixed arrays (also object arrays holding both), shapes as C01, a differing entry at "
                 "first/last/random position, tolerances in {default, 0, 2^-10, 1, 1000, 2^900, 1024*max}; "
                 "non-trivial = arrays differ in a value, a dtype or shape")
+
+
+def object_array_stream(ctx, n):
+    """arrays of dtype object whose entries are Python ints and floats mixed (as an API user may hand them over): with explicit
+    tolerances the default predicate decides by the fuzzy formula as soon as ONE entry on either side is a float, and exactly
+    when every entry on both sides is an integer"""
+    from fieldcompare import predicates as P
+    rng = ctx.rng
+    for it in range(n):
+        L = rng.randint(2, 6)
+        base = [rng.randint(-50, 50) for _ in range(L)]
+        n_float = rng.choice([0, 1, 1, 2, L])
+        fpos = rng.sample(range(L), min(n_float, L))
+        side_with_floats = rng.choice(["a", "b", "both"]) if n_float else "none"
+        va = [float(v) + 0.5 if (i in fpos and side_with_floats in ("a", "both")) else v for i, v in enumerate(base)]
+        vb = [float(v) + 0.5 if (i in fpos and side_with_floats in ("b", "both")) else
+              (v + 0.5 if (i in fpos and side_with_floats == "a") else v) for i, v in enumerate(base)]
+        if side_with_floats == "b":
+            va = [v + 0.5 if i in fpos else v for i, v in enumerate(base)]
+        # now va == vb in value; deviate one entry by `dev`
+        j = rng.randrange(L)
+        dev = rng.choice([Fr(0), Fr(1, 1024), Fr(1), Fr(3)])
+        tol = rng.choice([Fr(1, 2 ** 20), Fr(1, 8), Fr(2), Fr(1000)])
+        vb = list(vb)
+        if dev:
+            vb[j] = (vb[j] + float(dev)) if isinstance(vb[j], float) or dev.denominator != 1 else vb[j] + int(dev)
+        any_float = any(isinstance(v, float) for v in va + vb)
+        a, b = np.array(va, dtype=object), np.array(vb, dtype=object)
+        pred = P.DefaultEquality(rel_tol=0.0, abs_tol=float(tol))
+        canon = {"object_arrays": {"a": [repr(v) for v in va], "b": [repr(v) for v in vb], "abs_tol": str(tol), "deviation": str(dev)}}
+        res = {}
+        for nm, x, y in (("ab", a, b), ("ba", b, a)):
+            try:
+                res[nm] = bool(pred(x, y))
+            except Exception as e:  # noqa: BLE001
+                res[nm] = f"raised {type(e).__name__}: {e}"
+        ctx.case(canon, bool(dev), sample={"case": canon, "impl": res})
+        ctx.count(f"c09:object arrays:{'some float entry' if any_float else 'integers only'}")
+        ctx.tie("T2 object arrays of ints and floats: implementation = statement")
+        if dev == tol:
+            ctx.traces_validated += 1
+            continue
+        want = (dev <= tol) if any_float else (dev == 0)
+        for nm in ("ab", "ba"):
+            if res[nm] is not want:
+                ctx.violation("E4", f"c09: object arrays ({'with' if any_float else 'without'} float entries), deviation {dev}, abs_tol {tol}: "
+                                    f"verdict {res[nm]}, the statement requires {want}", canon, impl=res)
+                break
+        ctx.traces_validated += 1
 
 
 def long_array_stream(ctx, label, kinds, n):
